@@ -96,6 +96,24 @@ impl Operand {
             Operand::Raw(t) => t.clone(),
         }
     }
+    /// the same operand with blanks placed differently (the grammar's rules are not atomic: any number of blanks
+    /// between two tokens, none needed around a symbolic operator or inside `rule( .. )`)
+    pub fn render_spaced(&self, rng: &mut Rng) -> String {
+        let pad = |rng: &mut Rng, min: usize| " ".repeat(min + if rng.chance(1, 2) { 0 } else { 1 + rng.below(2) });
+        match self {
+            Operand::Test { segs, op, lit } => {
+                let word = OPS[*op].0 == "is";
+                let m = if word { 1 } else { 0 };
+                format!("{}{}{}{}{}{}{}", pad(rng, 0), render_path(segs), pad(rng, m), OPS[*op].0, pad(rng, m), lit.render(), pad(rng, 0))
+            }
+            Operand::Indirect { a, b, is } => {
+                let m = if *is { 1 } else { 0 };
+                format!("{}{}{}{}{}@{}{}", pad(rng, 0), render_path(a), pad(rng, m), if *is { "is" } else { "==" }, pad(rng, m), render_path(b), pad(rng, 0))
+            }
+            Operand::Rule(n) => format!("{}rule({}{n}{}){}", pad(rng, 0), pad(rng, 0), pad(rng, 0), pad(rng, 0)),
+            Operand::Raw(t) => t.clone(),
+        }
+    }
     pub fn spec(&self) -> Value {
         match self {
             Operand::Test { segs, op, lit } => json!({"test": {"segs": segs, "op": OPS[*op].1, "lit": lit.spec()}}),
@@ -261,7 +279,8 @@ impl SRule {
             r["match_on"] = mo.clone();
         }
         if !self.ops.is_empty() {
-            r["matches"] = json!(self.ops.iter().map(|(k, o)| json!([k, o.render()])).collect::<Vec<_>>());
+            let spaced = rng.chance(1, 5);
+            r["matches"] = json!(self.ops.iter().map(|(k, o)| json!([k, if spaced { o.render_spaced(rng) } else { o.render() }])).collect::<Vec<_>>());
         }
         let mut spec = json!({
             "ops": self.ops.iter().map(|(k, o)| json!([k, o.spec()])).collect::<Vec<_>>(),
